@@ -326,4 +326,55 @@ def decode_bin(data, lo):
     return {lo + i: b for i, b in enumerate(data)}, {}, []
 
 
+
+def decode_amiga(data, lo):
+    """AmigaDOS load file (hunk format): HUNK_HEADER (0x3f3), no resident libraries, size table, then for each hunk a
+    HUNK_CODE/DATA (0x3e9/0x3ea) with its length in longwords and that many bytes, closed by HUNK_END (0x3f2).  Hunks carry
+    no address: the bytes are laid out from `lo` upwards, as for bin."""
+    import struct
+    mem, problems = {}, []
+    def u32(off):
+        if off + 4 > len(data):
+            raise ValueError("file ends inside a longword at offset %d" % off)
+        return struct.unpack(">I", data[off:off + 4])[0]
+    try:
+        if u32(0) != 0x3f3:
+            return mem, {}, ["no HUNK_HEADER magic"]
+        off = 4
+        while True:                      # resident library names
+            n = u32(off); off += 4
+            if n == 0:
+                break
+            off += 4 * n
+        table = u32(off); first = u32(off + 4); last = u32(off + 8); off += 12
+        if last - first + 1 != table:
+            problems.append("table size %d but hunks %d..%d" % (table, first, last))
+        sizes = [u32(off + 4 * i) for i in range(last - first + 1)]
+        off += 4 * len(sizes)
+        at = lo
+        for i, size in enumerate(sizes):
+            t = u32(off) & 0x3fffffff; off += 4
+            if t not in (0x3e9, 0x3ea):
+                problems.append("hunk %d has type 0x%x" % (i, t))
+                break
+            n = u32(off); off += 4
+            if n != (size & 0x3fffffff):
+                problems.append("hunk %d: %d longwords in the hunk, %d in the header table" % (i, n, size))
+            if off + 4 * n > len(data):
+                problems.append("hunk %d: %d longwords announced, %d bytes left in the file" % (i, n, len(data) - off))
+                n = (len(data) - off) // 4
+            for j in range(4 * n):
+                mem[(at + j) & 0xffffffff] = data[off + j]
+            at += 4 * n
+            off += 4 * n
+            if u32(off) != 0x3f2:
+                problems.append("hunk %d is not followed by HUNK_END but by 0x%x" % (i, u32(off)))
+                break
+            off += 4
+        if off != len(data) and not problems:
+            problems.append("%d bytes after the last HUNK_END" % (len(data) - off))
+    except ValueError as e:
+        problems.append(str(e))
+    return mem, {}, problems
+
 DECODERS = {"hex": decode_ihex, "srec": decode_srec, "wdc": decode_wdc, "uf2": decode_uf2, "elf": decode_elf}
